@@ -222,3 +222,39 @@ Definition reduce_acyclic_b (g : grammar) (T : table) : bool :=
 (* every state expects at least one token (C12: non-empty expected list) *)
 Definition has_actions_b (T : table) : bool :=
   forallb (fun st => match s_sorted st with [] => false | _ => true end) (t_states T).
+
+(* ---- C12 "no late detection": every stack the parser can build spells a viable
+   prefix. Needs (i) every grammar symbol derives some terminal string,
+   (ii) every closure item (q,0) of a state is justified by an EARLIER item of
+   the same state with lhs(q) after its dot (rustemo's closure only appends),
+   (iii) no state is empty. ---------------------------------------------------- *)
+Definition prod_ready (g : grammar) (P : list nat) (pr : prod) : bool :=
+  forallb (fun x => ((0 <? x) && (x <? g_nterm g)) || memb x P) (p_rhs pr).
+
+Definition prod_round (g : grammar) (P : list nat) : list nat :=
+  P ++ map p_lhs (filter (prod_ready g P) (g_prods g)).
+
+Fixpoint prod_iter (g : grammar) (n : nat) (P : list nat) : list nat :=
+  match n with
+  | 0 => P
+  | S k => prod_iter g k (prod_round g P)
+  end.
+
+Definition productive_set (g : grammar) : list nat := prod_iter g (S (length (g_prods g))) [].
+
+Definition productive_b (g : grammar) : bool :=
+  forallb (prod_ready g (productive_set g)) (g_prods g).
+
+Definition justified_b (g : grammar) (T : table) (s : nat) (st : state) : bool :=
+  (match s_items st with [] => false | _ => true end) &&
+  forallb (fun '(idx, it) =>
+             if i_pos it =? 0 then
+               (is_aug_prod g (i_prod it) && is_start_state T s) ||
+               existsb (fun it' => match nth_error (rhs g (i_prod it')) (i_pos it') with
+                                   | Some X => X =? lhs g (i_prod it)
+                                   | None => false
+                                   end) (firstn idx (s_items st))
+             else true) (indexed (s_items st)).
+
+Definition viable_b (g : grammar) (T : table) : bool :=
+  productive_b g && forallb (fun '(s, st) => justified_b g T s st) (indexed (t_states T)).
